@@ -52,5 +52,43 @@ let () =
         ignore s;
         Printf.printf "%s %s\n" id (String.concat " " toks)
       with e -> Printf.printf "%s MODELERROR %s\n" id (Printexc.to_string e))
+    | [id; "S"; nu; cts; mans; opss; _] ->
+      (* store-level model (Model/GraphStore.v, repaired gcIndex):
+         P<n> Push, T<n> Tag, X<n> delete, G<k.k.k> GC keeping the untagged manifests k,
+         O reopen, S observe (stored set, then Predecessors of every key) *)
+      (try
+        let nu = int_of_string nu in
+        let ct = parse_ct cts in
+        let mans = if mans = "-" then [] else ints_of mans in
+        let isman x = List.mem (int_of_n x) mans in
+        let content = ctab ct in
+        let fuel = nat_of_int 100000 in
+        let ops = if opss = "-" then [] else String.split_on_char ',' opss in
+        let st = ref empty_store in
+        let toks = ref [] in
+        let fuel_out = ref false in
+        List.iter (fun t ->
+          let rest = String.sub t 1 (String.length t - 1) in
+          let arg () = n_of_int (int_of_string rest) in
+          let apply o =
+            let (s', ok) = ostep true content isman fuel !st o in
+            st := s'; if not ok then fuel_out := true in
+          match t.[0] with
+          | 'P' -> apply (PPush (arg ()))
+          | 'T' -> apply (PTag (arg ()))
+          | 'X' -> apply (PDelete (arg ()))
+          | 'G' ->
+            let kept = if rest = "" then [] else List.map (fun x -> n_of_int (int_of_string x)) (String.split_on_char '.' rest) in
+            apply (PGC kept)
+          | 'O' -> apply PReopen
+          | 'S' ->
+            toks := ("b:" ^ show_ints (List.map int_of_n !st.o_blobs)) :: !toks;
+            for i = 0 to nu - 1 do
+              toks := ("p:" ^ show_raw (predecessors_raw !st.o_graph (n_of_int i))) :: !toks
+            done
+          | _ -> failwith "sop") ops;
+        if !fuel_out then Printf.printf "%s FUEL\n" id
+        else Printf.printf "%s %s\n" id (String.concat " " (List.rev !toks))
+      with e -> Printf.printf "%s MODELERROR %s\n" id (Printexc.to_string e))
     | [] -> ()
     | _ -> Printf.printf "BADLINE %s\n" l)
